@@ -72,8 +72,11 @@ func refStage(tok string, t trace, callbacks, erase bool) (trace, bool) {
 			out.items = append(out.items, append([]any{}, t.items[i:]...))
 		}
 		return out, true
-	case "compact":
+	case "compact", "compactw":
 		same := relOf(arg)
+		if k == "compactw" {
+			same = eqV // Compact: "elides adjacent duplicates"
+		}
 		for i, x := range t.items {
 			if i > 0 && same(t.items[i-1], x) {
 				continue
@@ -189,7 +192,7 @@ func refStage(tok string, t trace, callbacks, erase bool) (trace, bool) {
 func refSource(tok string, erase bool) (trace, bool) {
 	k, arg := splitTok(tok)
 	switch k {
-	case "src", "fromit":
+	case "src", "fromit", "chan", "slice":
 		return srcTrace(arg, erase), true
 	case "empty":
 		return trace{term: "end"}, true
@@ -298,8 +301,11 @@ func stageNeed(tok string, in []any, j int) (int, bool) {
 	case "filter":
 		name, _ := splitBang(arg)
 		return kept(func(i int) bool { return predOf(name)(in[i]) })
-	case "compact":
+	case "compact", "compactw":
 		same := relOf(arg)
+		if k == "compactw" {
+			same = eqV
+		}
 		return kept(func(i int) bool { return i == 0 || !same(in[i-1], in[i]) })
 	case "first":
 		f := atoi(arg)
